@@ -137,10 +137,27 @@ def model_runs(chk, tier, cfgs=None, needed=None):
         chk.cov["model_runs"] = "skipped (VERIF_SKIP_MC)"
         return
     for cfg in cfgs:
-        res = vlib.run_tlc("MC_Krill", cfg, chk.out, workers=12,
+        # (MC_Krill_live_*: temporal properties under fairness of the
+        # background tasks, module MC_Krill_live)
+        live = cfg.startswith("MC_Krill_live")
+        res = vlib.run_tlc("MC_Krill_live" if live else "MC_Krill", cfg,
+                           chk.out, workers=6 if live else 12,
                            timeout=600 if "_q_" in cfg else 2400,
-                           coverage=True)
+                           coverage=not live)
+        if cfg == "MC_Krill_live_sanity.cfg":
+            # anti-vacuity: this temporal property is false (a roll rests
+            # while it waits for the operator); TLC must find the lasso
+            if "Sanity_RollNewNeverRests was violated" not in res.out:
+                raise vlib.ToolError(
+                    "liveness checking is vacuous: the false property "
+                    "Sanity_RollNewNeverRests was not refuted")
+            chk.cov["liveness_sanity"] = (
+                "false temporal property refuted by TLC (lasso found)")
+            continue
         chk.add_tlc(cfg, res)
+        if live:
+            chk.cov.setdefault("temporal_properties_checked", []).append(cfg)
+            chk.cov["actions_covered"].setdefault("MCNext", 1)
         if res.violated or res.errors:
             print(res.counterexample()[:3000])
             raise vlib.ToolError(
@@ -399,6 +416,36 @@ CLAUSES = {
         _a("Settle"),
         _a("RollInit", c="B"), _a("Settle"), _a("RollActivate", c="B"),
         _a("RemoveParent", c="B", p="A"), _a("Settle")]},
+    # C02 (known finding cert-shrunk-by-parent-not-re-requested): the parent
+    # shrinks and regains before the child's next synchronisation
+    "shrink-regrow-before-child-sync": {"actions": [
+        _a("AddCa", c="B", p="A", res=["p1", "p2", "a1"]), _a("Settle"),
+        _a("AddCa", c="C", p="B", res=["p1", "p2"]), _a("Settle"),
+        _a("RoaAdd", c="C", r=["p1", "a1"]), _a("Settle"),
+        _a("ChildRes", c="B", p="A", res=["p2", "a1"]),
+        _a("Step", task="sync_B_with_parent_A"),
+        _a("Step", task="sync_B_with_parent_A"),
+        _a("ChildRes", c="B", p="A", res=["p1", "p2", "a1"]),
+        _a("Step", task="sync_B_with_parent_A"),
+        _a("Step", task="sync_B_with_parent_A"),
+        _a("Settle"), _a("Settle")]},
+    # C04: an activation while requests for the parent are open (the
+    # entitlement changed after the new key got its certificate; the CA has
+    # listed and not yet sent) is refused and changes nothing; once the
+    # requests are answered it goes through
+    "roll-activate-with-open-requests": {"actions": [
+        _a("AddCa", c="B", p="A", res=["p1", "a1"]), _a("Settle"),
+        _a("AddCa", c="C", p="B", res=["p1"]), _a("Settle"),
+        _a("RoaAdd", c="B", r=["p1", "a1"]), _a("Settle"),
+        _a("RollInit", c="B"), _a("Settle"),
+        _a("ChildRes", c="B", p="A", res=["p1", "p2", "a1"]),
+        _a("Step", task="sync_B_with_parent_A"),
+        _a("RollActivate", c="B"),
+        _a("Step", task="sync_B_with_parent_A"),
+        _a("RollActivate", c="B"), _a("Settle"),
+        _a("RollInit", c="B"),
+        _a("RollActivate", c="B"), _a("Settle"),
+        _a("RollActivate", c="B"), _a("Settle")]},
     # C04: the child rolls while its parent rolls
     "roll-parent-and-child": {"actions": [
         _a("AddCa", c="B", p="A", res=["p1", "p2"]), _a("Settle"),
@@ -654,6 +701,17 @@ def scan_known(chk, trace):
                             "cert-dropped-by-parent-not-re-requested:Settled",
                             f"CA {c} believes its {x} key holds {certs[x]} "
                             f"but parent {p} issues no certificate for it",
+                            {"driver": "run-ca",
+                             "behaviour": behaviour_of(seg)})
+                    elif certs.get(x) and a["iss"][c].get(x) \
+                            and set(certs[x]) == offer \
+                            and set(a["iss"][c][x]) != set(certs[x]):
+                        chk.report(
+                            "cert-shrunk-by-parent-not-re-requested:Settled",
+                            f"CA {c} believes its {x} key holds {certs[x]} "
+                            f"but parent {p} issues {a['iss'][c][x]} for it "
+                            f"and offers {sorted(offer)}; relying party: "
+                            f"{ev.get('rp', {}).get('problems')}",
                             {"driver": "run-ca",
                              "behaviour": behaviour_of(seg)})
             for c, ex in a.get("exists", {}).items():
